@@ -493,9 +493,11 @@ def cg_plans():
         for nm in carried:
             v = tr.env[nm]
             outs.append(b.param(v[1]) if isinstance(v, tuple) else v)
+        exits = sum(1 for n in ast.walk(loop) if isinstance(n, (ast.Break, ast.Continue, ast.Return, ast.Raise)))
+        nloops = sum(1 for n in ast.walk(fn) if isinstance(n, (ast.For, ast.While, ast.AsyncFor)))
         shape = (range_ok, break_after if break_after is not None else -1, break_ok,
                  bool(returns_x and x_assigned_at is not None and break_after is not None and x_assigned_at < break_after),
-                 branches)
+                 branches, exits, nloops)
         return b.nodes, outs, shape
 
     bodies = {u: run(u) for u in _UPD}
@@ -547,11 +549,11 @@ def _c19_extra():
         s0 = shapes["FR"]
         if any(s != s0 for s in shapes.values()):
             raise Untranslatable("cg: control skeleton differs between branches")
-        rng, brk, brk_ok, ret, branches = s0
+        rng, brk, brk_ok, ret, branches, exits, nloops = s0
         out.append("/-- control skeleton of `ConjGrad.cg` -/\ndef cg_loop_shape : LoopShape :=\n"
                    f"  {{ rangeNumIters := {'true' if rng else 'false'}, breakAfter := {max(brk, 0) if brk >= 0 else 999}, "
                    f"breakTestOnRrNew := {'true' if brk_ok else 'false'}, returnsX := {'true' if ret else 'false'}, "
-                   f"branches := [{', '.join('.' + x for x in branches)}] }}\n")
+                   f"branches := [{', '.join('.' + x for x in branches)}], exits := {exits}, loops := {nloops} }}\n")
         status["cg_init_plan"] = status["cg_body_plan"] = status["cg_loop_shape"] = "translated"
     except Untranslatable as e:
         for k in ("cg_init_plan", "cg_body_plan", "cg_loop_shape"):
@@ -909,11 +911,112 @@ def _sites_extra():
     return "\n".join(out), status
 
 
+def _callers_extra():
+    """call sites of the conjugate-gradient block outside the anchored file: `ConjGradNet`"""
+    out, status = [], {}
+    file = NN + "conjgradnet/conjgradnet.py"
+    # (1) every `self.conj_grad(...)` call in ConjGradNet.forward: positional (masked_kspace, sensitivity_map, sampling_mask, z, self.mu)
+    try:
+        info = _info(file, "ConjGradNet")
+        fn = info.method("forward")
+        calls = _calls(fn, "self.conj_grad")
+        rows = []
+        for c in calls:
+            if c.keywords:
+                cg_fn = _info(CG, "ConjGrad").method("forward")
+                names = _positional(cg_fn)
+                bound = {n: ast.unparse(a) for n, a in zip(names, c.args)}
+                for k in c.keywords:
+                    if k.arg is None or k.arg in bound or k.arg not in names:
+                        raise Untranslatable(f"keyword {k.arg}")
+                    bound[k.arg] = ast.unparse(k.value)
+                if set(bound) != set(names):
+                    raise Untranslatable("call does not bind all parameters")
+                rows.append([bound[n] for n in names])
+            else:
+                rows.append([ast.unparse(a) for a in c.args])
+        lean_rows = ", ".join("[" + ", ".join('"' + a.replace('"', "'") + '"' for a in r) + "]" for r in rows)
+        out.append("/-- arguments (in the order of `ConjGrad.forward`'s signature) of every `self.conj_grad(…)` call in "
+                   "`ConjGradNet.forward` -/\n"
+                   f"def conjgradnet_cg_calls : List (List String) := [{lean_rows}]\n")
+        status["conjgradnet_cg_calls"] = "translated"
+    except Untranslatable as e:
+        status["conjgradnet_cg_calls"] = f"skipped: {e}"
+        out.append(f"/-- SKIPPED ({e}) -/\ndef conjgradnet_cg_calls : List (List String) := DataConsistency.conjGradNetCalls\n")
+    # (2) the constructor call `ConjGrad(forward_operator, backward_operator, cg_iters, cg_tol, cg_param_update_type)`
+    try:
+        info = _info(file, "ConjGradNet")
+        init = info.method("__init__")
+        calls = _calls(init, "ConjGrad")
+        if len(calls) != 1:
+            raise Untranslatable(f"{len(calls)} ConjGrad(...) calls in ConjGradNet.__init__")
+        c = calls[0]
+        cg_init = _info(CG, "ConjGrad").method("__init__")
+        names = _positional(cg_init)
+        bound = {n: ast.unparse(a) for n, a in zip(names, c.args)}
+        for k in c.keywords:
+            if k.arg is None or k.arg in bound or k.arg not in names:
+                raise Untranslatable(f"keyword {k.arg}")
+            bound[k.arg] = ast.unparse(k.value)
+        row = [bound.get(n, "<default>") for n in names]
+        out.append("/-- what `ConjGradNet.__init__` passes for each parameter of `ConjGrad.__init__` (in its signature order) -/\n"
+                   "def conjgradnet_ctor_args : List String := ["
+                   + ", ".join('"' + a.replace('"', "'") + '"' for a in row) + "]\n"
+                   f"def conjgrad_ctor_params : List String := [{', '.join(chr(34) + n + chr(34) for n in names)}]\n")
+        status["conjgradnet_ctor_args"] = "translated"
+    except Untranslatable as e:
+        status["conjgradnet_ctor_args"] = f"skipped: {e}"
+        out.append(f"/-- SKIPPED ({e}) -/\ndef conjgradnet_ctor_args : List String := DataConsistency.conjGradNetCtorArgs\n"
+                   "def conjgrad_ctor_params : List String := DataConsistency.conjGradCtorParams\n")
+    # (3) `ConjGradNet.init_z` SENSE branch: R F^H y
+    try:
+        info = _info(file, "ConjGradNet")
+        fn = info.method("init_z")
+        st = SiteTr(info, fn, [W], {"kspace": P0, "sensitivity_map": SENS}, coil=1, spatial=(2, 3))
+        st.info.defaults.update({"coil_dim": 1, "spatial_dims": (2, 3)})
+        target = None
+        for n in ast.walk(fn):
+            if isinstance(n, ast.If) and "sense" in ast.unparse(n.test):
+                for b_ in n.body:
+                    if isinstance(b_, ast.Assign) and ast.unparse(b_.targets[0]) == "image":
+                        target = b_.value
+        if target is None:
+            raise Untranslatable("SENSE branch of init_z not found")
+        # `backward_operator(...)` is a parameter here, not `self.backward_operator`
+        class _R(ast.NodeTransformer):
+            def visit_Call(self, node):
+                self.generic_visit(node)
+                if isinstance(node.func, ast.Name) and node.func.id == "backward_operator":
+                    node.func = ast.Attribute(value=ast.Name(id="self", ctx=ast.Load()), attr="backward_operator", ctx=ast.Load())
+                return node
+        target = ast.fix_missing_locations(_R().visit(ast.parse(ast.unparse(target), mode="eval").body))
+        ns, outs = st.plan(st.value(target))
+        out.append(f"/-- translated: ConjGradNet.init_z, SENSE initialisation of `z` -/\ndef site_conjgradnet_init : Plan :=\n  {_plan(ns, outs)}\n")
+        status["site_conjgradnet_init"] = "translated"
+    except Untranslatable as e:
+        status["site_conjgradnet_init"] = f"skipped: {e}"
+        out.append(f"/-- SKIPPED ({e}) -/\ndef site_conjgradnet_init : Plan := DataConsistency.sensePlan\n")
+    return "\n".join(out), status
+
+
+def _state_extra():
+    from . import c19_state
+
+    try:
+        return c19_state.state_tables()
+    except Untranslatable as e:
+        return f"/-- SKIPPED ({e}) -/\n" + c19_state.STATE_FALLBACK, {"dc_state_writes": f"skipped: {e}"}
+
+
 def _c19_all():
     t1, s1 = _c19_extra()
     t2, s2 = _sites_extra()
+    t3, s3 = _callers_extra()
+    t4, s4 = _state_extra()
     s1.update(s2)
-    return t1 + "\n" + t2, s1
+    s1.update(s3)
+    s1.update(s4)
+    return "\n".join([t1, t2, t3, t4]), s1
 
 
 EXTRA["C19"] = _c19_all
